@@ -291,17 +291,22 @@ def exon_scan(chk, repo, rid):
         chk.undecided(rid, 'exon scans of find_exon_index', f.where, 'no `for i, exon in enumerate(...)` scan found in find_exon_index (restructured?)',
                       key=f"{f.qual}::strands", fn=f.qual)
         return
-    for lp in loops_:
-        fx = lf.get(id(lp))
-        strand = None
-        for t, v in (sem.sure_literals(fx) if fx is not None else set()):
-            m = re.match(r'^(-?1) == (?:.*\.)?strand$', t)
-            if m and v:
-                strand = int(m.group(1))
-        if strand is None:
-            chk.undecided(rid, 'exon scans of find_exon_index', repo.loc(f, lp), 'a scan loop is not tied to one strand by the conditions on the way to it (merged / parametrised scan?)',
-                          key=f"{f.qual}::strands", fn=f.qual)
-            return
+    # one specialised copy of the function per strand (E10: the strand expression replaced by +1 / -1 and folded): a scan written
+    # once and parametrised by the strand reads, per strand, like the plain scan
+    from sa.canon import normal_form as _normal_form, literal_constants as _lit_consts
+    strand_exprs = {unparse(c.left) for c in ast.walk(f.node) if isinstance(c, ast.Compare) and re.fullmatch(r'(?:.*\.)?strand', unparse(c.left))}
+    if not strand_exprs:
+        chk.undecided(rid, 'exon scans of find_exon_index', f.where, 'no comparison of the transcript strand found', key=f"{f.qual}::strands", fn=f.qual)
+        return
+    per_strand = []
+    for sv in (1, -1):
+        # specialise the source form, then take its normal form (locals that became single-assignment are expanded, operator.gt /
+        # operator.lt calls become comparisons)
+        sp = _normal_form(sem.specialise(f.node, {t: sv for t in strand_exprs}), _lit_consts(f.module.tree), flow=True)
+        for lp in [l for l in ast.walk(sp) if isinstance(l, ast.For) and isinstance(l.iter, ast.Call) and call_name(l.iter) == 'enumerate'
+                   and isinstance(l.target, ast.Tuple) and len(l.target.elts) == 2 and all(isinstance(e, ast.Name) for e in l.target.elts)]:
+            per_strand.append((sv, sp, lp))
+    for strand, nf_s, lp in per_strand:
         seen.add(strand)
         sg = f"strand {strand:+d}"
         iv, ev = (e.id for e in lp.target.elts)
@@ -312,13 +317,13 @@ def exon_scan(chk, repo, rid):
         chk.ob(rid, f"{sg}: exons are scanned in transcript order, counted from 0", repo.loc(f, lp), ok_it,
                f"{sg}: the scan runs over `{unparse(lp.iter)}`", key=f"{f.qual}::scan-order::{strand:+d}", fn=f.qual)
         inside = {id(x) for x in ast.walk(lp)}
-        rets = [(st, sem.sure_literals(fx2)) for st, fx2 in sem.facts_where(nf, lambda st: isinstance(st, ast.Return)) if id(st) in inside and fx2 is not None]
+        rets = [(st, sem.sure_literals(fx2)) for st, fx2 in sem.facts_where(nf_s, lambda st: isinstance(st, ast.Return)) if id(st) in inside and fx2 is not None]
         eq = sem.lit(f'{ev} == feature')
         ok_r = len(rets) >= 1 and all(isinstance(st.value, ast.Name) and st.value.id == iv and eq in lits for st, lits in rets)
         chk.ob(rid, f"{sg}: the index returned is that of the exon equal to the feature", repo.loc(f, lp), ok_r,
                f"{sg}: return sites {[(unparse(st.value) if st.value is not None else None, sorted(l_ for l_ in lits if ev in l_[0])) for st, lits in rets]}",
                key=f"{f.qual}::return::{strand:+d}", fn=f.qual)
-        brks = [(st, sem.sure_literals(fx2)) for st, fx2 in sem.facts_where(nf, lambda st: isinstance(st, ast.Break)) if id(st) in inside and fx2 is not None]
+        brks = [(st, sem.sure_literals(fx2)) for st, fx2 in sem.facts_where(nf_s, lambda st: isinstance(st, ast.Break)) if id(st) in inside and fx2 is not None]
         past = sem.lit(f'{ev} > feature') if strand == 1 else sem.lit(f'{ev} < feature')
         ok_b = all(past in lits for _st, lits in brks)
         chk.ob(rid, f"{sg}: the scan is abandoned only when the exon is already past the feature", repo.loc(f, lp), ok_b,
